@@ -1241,16 +1241,17 @@ fn run_t(spec: &str, hist: &str, probe: &str) -> String {
     let exact = !spec.contains('q');
     let loca = match ReadScope::new(&loca_bytes).read_dep::<LocaTable<'_>>((n, IndexToLocFormat::Long)) {
         Ok(l) => l,
-        Err(_) => return "nofont nofont".to_string(),
+        Err(_) => return "nofont nofont -".to_string(),
     };
     let mut used = match t_load(pre, &glyf, &loca) {
         Ok(t) => t,
-        Err(_) => return "nofont nofont".to_string(),
+        Err(_) => return "nofont nofont -".to_string(),
     };
     let debug = std::env::var("C03_DEBUG").is_ok();
     let mut ops: Vec<&str> = hist.split(';').filter(|s| !s.is_empty()).collect();
     ops.push(probe);
     let (mut a, mut b) = (String::new(), String::new());
+    let mut status: Vec<String> = vec![];
     for op in &ops {
         let ra = t_op(&mut used, op, exact);
         let rb = match t_load(pre, &glyf, &loca) {
@@ -1260,6 +1261,7 @@ fn run_t(spec: &str, hist: &str, probe: &str) -> String {
         if debug {
             t_debug!("{} -> one table: {}\n      fresh table: {}", op, ra, rb);
         }
+        status.push(t_status(op, &rb));
         a.push_str(&ra);
         a.push('\n');
         b.push_str(&rb);
@@ -1273,7 +1275,40 @@ fn run_t(spec: &str, hist: &str, probe: &str) -> String {
     }
     a.push_str(&rc);
     b.push_str(&rb);
-    format!("{} {}", dig(&a), dig(&b))
+    format!("{} {} {}", dig(&a), dig(&b), status.join(","))
+}
+
+/// what the extracted model predicts of a call on a freshly read table: visit -> ok:<simple glyphs drawn> (every
+/// synthesised simple glyph has one contour, i.e. one move_to) | err:E; get_parsed_glyph -> ok:E | ok:S |
+/// ok:C<component indices> | err:E; other calls are not modelled (`-`)
+fn t_status(op: &str, res: &str) -> String {
+    if res == "panic" || res == "oob" {
+        return res.to_string();
+    }
+    if let Some(e) = res.strip_prefix("err:") {
+        return if op.starts_with("v:") || op.starts_with("g:") { format!("err:{}", e) } else { "-".to_string() };
+    }
+    if op.starts_with("v:") {
+        format!("ok:{}", res.matches('M').count())
+    } else if op.starts_with("g:") {
+        let r = res.strip_prefix("ok:").unwrap_or(res);
+        if r.starts_with("Empty") {
+            "ok:E".to_string()
+        } else if r.starts_with("Simple") {
+            "ok:S".to_string()
+        } else {
+            let mut ids = vec![];
+            let mut rest = r;
+            while let Some(i) = rest.find("glyph_index: ") {
+                rest = &rest[i + 13..];
+                let end = rest.find(|c: char| !c.is_ascii_digit()).unwrap_or(rest.len());
+                ids.push(rest[..end].to_string());
+            }
+            format!("ok:C{}", ids.join("."))
+        }
+    } else {
+        "-".to_string()
+    }
 }
 
 // ------------------------------------------------------------------------------------------------
